@@ -8,7 +8,15 @@
              success only behind the success edge of the post-condition verifier;
  NODROP      the verifiers above the four flip-predicate post-condition checkers drop no result;
  (TXN for the two entry points is C03.)
-Not decided: convergence, equality with the unique Delaunay triangulation, vertex-set equality."""
+ SAMEVERTS   the flip drivers cannot change the vertex key set (effect summary); the heuristic rebuild
+             — the only repair path that re-inserts vertices — feeds every stored vertex (UUID, point and
+             data read from the stored vertex, no filtering adaptor) and turns a skipped insertion
+             into Err instead of going on to the next vertex.
+ SEEDCOVER   the work-list seeding shared by the repair loop and by the post-condition verifier
+             (`seed_repair_queues`) enqueues, for every present cell it iterates over, all simplex
+             classes (facets, ridges, edges, triangles) — no class is skipped on some path of an
+             iteration (a class that is never enqueued is neither repaired nor *verified*).
+Not decided: convergence, equality with the unique Delaunay triangulation."""
 import flow
 import gate
 import pair
@@ -37,6 +45,8 @@ def run(ctx):
     ctx.rule('ADMISSIBLE', 'repair drivers are reachable from exported functions only behind is_admissible_under == true')
     ctx.rule('POSTCOND', 'Ok of the public repair entry points is dominated by the success edge of the post-condition verifier')
     ctx.rule('NODROP', 'Delaunay verifiers drop no checker result')
+    ctx.rule('SAMEVERTS', 'flip drivers never change the vertex key set; the heuristic rebuild re-inserts every stored '
+                          'vertex and fails on a skipped one')
     for cfg in ctx.cfgs:
         prog = ctx.prog(cfg)
         mod = ctx.mod(cfg)
@@ -45,7 +55,215 @@ def run(ctx):
         _admissible(ctx, cfg, prog, lv)
         _postcond(ctx, cfg, prog, lv)
         _nodrop(ctx, cfg, prog, lv)
+        _sameverts(ctx, cfg, prog, mod)
+        _seedcover(ctx, cfg, prog, mod)
     return ctx.finish(EXPLANATION)
+
+
+SEEDQ = F + 'seed_repair_queues'
+CELL_FAMILIES = {'ridges': F + 'enqueue_cell_ridges', 'edges': F + 'enqueue_cell_edges',
+                 'triangles': F + 'enqueue_cell_triangles'}
+FACET_CELL = F + 'enqueue_cell_facets'
+FACET_ONE = F + 'enqueue_facet'
+CONTAINS = 'core::triangulation_data_structure::Tds::contains_cell'
+
+
+def _cycle_avoiding(body, h, nodes, avoid_blocks, avoid_edges):
+    """Is there a cycle h -> .. -> h inside `nodes` that avoids the given blocks and edges?"""
+    seen = set()
+    work = [(h, s_) for s_ in body.succs(h)]
+    while work:
+        (a, x) = work.pop()
+        if (a, x) in avoid_edges or x not in nodes or x in avoid_blocks:
+            continue
+        if x == h:
+            return True
+        if x in seen:
+            continue
+        seen.add(x)
+        for s_ in body.succs(x):
+            work.append((x, s_))
+    return False
+
+
+def _seedcover(ctx, cfg, prog, mod):
+    import loops
+    ctx.rule('SEEDCOVER', 'seed_repair_queues enqueues every simplex class for every present cell on every path of an iteration')
+    b = ctx.anchor(cfg, SEEDQ)
+    if b is None:
+        return
+    calls = {}
+    for bb, t in b.calls():
+        calls.setdefault(t.resolved or t.callee, []).append(bb)
+    # edges taken when the cell is absent (`!tds.contains_cell(key)`): a legitimate skip
+    skip_edges = set()
+    uses = flow._collect_uses(b)
+    for bb in calls.get(CONTAINS, []):
+        t = b.blocks[bb].term
+        if t.dest is None or not t.dest.is_local():
+            continue
+        for (sbb, _, snode, how) in uses.get(t.dest.local, []):
+            if how == 'switch':
+                for v, tg in snode.values:
+                    if v == 0:
+                        skip_edges.add((sbb, tg))
+    lps = loops.natural_loops(b)
+    facet_loop_headers = {h for h, nodes in lps.items() if any(x in nodes for x in calls.get(FACET_ONE, []))}
+    n = 0
+    site = '%s:%d' % (b.file, b.line)
+    for h, nodes in sorted(lps.items()):
+        fams_here = {f for f, q in CELL_FAMILIES.items() if any(x in nodes for x in calls.get(q, []))}
+        has_facets_here = any(x in nodes for x in calls.get(FACET_CELL, []))
+        if not fams_here and not has_facets_here:
+            continue
+        n += 1
+        key = '%s|loop%d' % (SEEDQ, n)
+        for f, q in sorted(CELL_FAMILIES.items()):
+            blocks = {x for x in calls.get(q, []) if x in nodes}
+            bad = not blocks or _cycle_avoiding(b, h, nodes, blocks, skip_edges)
+            ctx.ob('SEEDCOVER', key + '|' + f, cfg, not bad,
+                   ('every iteration over a present cell passes %s' % q.rsplit('::', 1)[-1]) if not bad else
+                   ('an iteration of the cell loop at line %d can complete without %s: that simplex class is neither '
+                    'repaired nor checked by the post-condition verifier on that path' % (b.blocks[h].term.line, q.rsplit('::', 1)[-1])),
+                   site=site)
+        fblocks = {x for x in calls.get(FACET_CELL, []) if x in nodes}
+        per_iter = bool(fblocks) and not _cycle_avoiding(b, h, nodes, fblocks, skip_edges)
+        before = bool(facet_loop_headers) and h not in flow.reach_edges(b, [0], avoid_blocks=facet_loop_headers)
+        ctx.ob('SEEDCOVER', key + '|facets', cfg, per_iter or before,
+               'facets are enqueued %s' % ('per iteration (enqueue_cell_facets)' if per_iter else
+                                           'by a preceding loop over all facets (enqueue_facet)' if before else
+                                           'on NO path guaranteed to run with this cell loop'), site=site)
+    ctx.floor('cell loops in seed_repair_queues (local and global seeding)', 2, n, cfg)
+
+
+REBUILD = D_ + 'rebuild_with_heuristic'
+COLLECT = D_ + 'collect_vertices_for_rebuild'
+VERTS = 'core::triangulation_data_structure::Tds::vertices'
+VNEW = 'core::vertex::Vertex::new_with_uuid'
+OUTCOME = 'core::operations::InsertionOutcome'
+FILTERING = {'filter', 'filter_map', 'take', 'skip', 'step_by', 'take_while', 'skip_while', 'truncate', 'retain',
+             'dedup', 'dedup_by', 'dedup_by_key', 'pop', 'drain', 'split_off'}
+FLIP_ONLY = [F + 'repair_delaunay_with_flips_k2_k3', F + 'repair_delaunay_local_single_pass',
+             D_ + 'repair_delaunay_with_flips', D_ + 'repair_delaunay_with_flips_robust']
+
+
+def _family(prog, q):
+    out = [q]
+    for c in prog.children.get(q, []):
+        out += _family(prog, c)
+    return out
+
+
+def _sameverts(ctx, cfg, prog, mod):
+    # 1. effect summary: the flip drivers never write the vertex maps themselves
+    res = pair.Resources(prog, mod)
+    eng = pair.PairEngine(prog, mod, res, m_pred=lambda rel: rel in (('vertices',), ('uuid_to_vertex_key',)),
+                          b_prim=lambda *a: False, snapshot_resets=True)
+    eng.solve()
+    n = 0
+    for q in FLIP_ONLY:
+        b = ctx.anchor(cfg, q)
+        if b is None:
+            continue
+        for i, r in enumerate(res.res.get(q, [])):
+            if not r['mut']:
+                continue
+            n += 1
+            summ = eng.summary[(q, i)]
+            bad = any(m for (m, _) in summ)
+            detail = 'vertex key-set effect: %s' % sorted(summ)
+            if bad:
+                detail += '; a path inserts into / removes from Tds.vertices or uuid_to_vertex_key: ' + ' -> '.join(
+                    pair.blame_chain(eng, q, i))
+            ctx.ob('SAMEVERTS', q + '|no-vertex-keyset-write', cfg, not bad, detail, site='%s:%d' % (b.file, b.line))
+    ctx.floor('flip-only repair drivers with a mutable Tds', 4, n, cfg)
+    # positive control: the engine sees a vertex key-set write where there is one
+    ctl = 'core::triangulation_data_structure::Tds::insert_vertex_with_mapping'
+    seen = any(m for i in range(len(res.res.get(ctl, []))) for (m, _) in eng.summary.get((ctl, i), ()))
+    ctx.floor('positive control: insert_vertex_with_mapping writes the vertex key set', 1, 1 if seen else 0, cfg)
+    # 2. the rebuild feeds every stored vertex
+    cb = ctx.anchor(cfg, COLLECT)
+    rb = ctx.anchor(cfg, REBUILD)
+    if cb is None or rb is None:
+        return
+    fam = _family(prog, COLLECT)
+    names = []
+    for q in fam:
+        for bb, t in prog.bodies[q].calls():
+            names.append((t.resolved or t.callee or '').rsplit('::', 1)[-1])
+    src_ok = any((t.resolved or t.callee) == VERTS for bb, t in cb.calls())
+    filt = sorted(set(names) & FILTERING)
+    ctx.ob('SAMEVERTS', COLLECT + '|all-stored-vertices', cfg, src_ok and not filt,
+           'source = Tds::vertices: %s; filtering adaptors in the collection chain: %s' % (src_ok, filt or 'none'),
+           site='%s:%d' % (cb.file, cb.line))
+    # element constructor reads uuid, point and data of the stored vertex
+    ctor_ok, why = False, 'no Vertex::new_with_uuid call in the collection chain'
+    for q in fam:
+        b = prog.bodies[q]
+        al = mod.aliases(q)
+        for bb, t in b.calls():
+            if (t.resolved or t.callee) != VNEW or len(t.args) < 3:
+                continue
+            import valueflow
+            got = []
+            for o, want in zip(t.args[:3], ('point', 'uuid', 'data')):
+                leaves = valueflow.sources(b, al, o.place.local) if o.place is not None else []
+                hit = False
+                for l in leaves:
+                    if l[0] == 'call' and (l[1].resolved or l[1].callee or '').rsplit('::', 1)[-1] == want:
+                        hit = True
+                    if l[0] == 'place' and l[1][1] and l[1][1][-1] == want:
+                        hit = True
+                got.append(hit)
+            ctor_ok = all(got)
+            why = 'Vertex::new_with_uuid(point, uuid, data) arguments read from the stored vertex: %s' % got
+    ctx.ob('SAMEVERTS', COLLECT + '|same-uuid-point-data', cfg, ctor_ok, why, site='%s:%d' % (cb.file, cb.line))
+    # rebuild uses the collection
+    uses = any((t.resolved or t.callee) == COLLECT for bb, t in rb.calls())
+    rfam = _family(prog, REBUILD)
+    rnames = []
+    for q in rfam:
+        for bb, t in prog.bodies[q].calls():
+            nm = (t.resolved or t.callee or '')
+            # adaptor calls on the vertex vector only (receiver type mentions Vertex)
+            if nm.rsplit('::', 1)[-1] in FILTERING and t.args and t.args[0].place is not None and \
+                    'vertex::Vertex<' in prog.bodies[q].locals[t.args[0].place.local]:
+                rnames.append(nm.rsplit('::', 1)[-1])
+    ctx.ob('SAMEVERTS', REBUILD + '|feeds-collection', cfg, uses and not rnames,
+           'calls collect_vertices_for_rebuild: %s; filtering adaptors applied to the vertex vector: %s' % (uses, sorted(set(rnames)) or 'none'),
+           site='%s:%d' % (rb.file, rb.line))
+    # 3. Skipped => Err: from the Skipped arm of every match on an InsertionOutcome in the rebuild family, neither an
+    #    Ok exit nor the loop header (next vertex) is reachable
+    n_sw = 0
+    for q in rfam:
+        b = prog.bodies[q]
+        for blk in b.blocks:
+            if blk.cleanup:
+                continue
+            t = blk.term
+            if t.k != 'switch' or t.discr.place is None or not t.discr.place.is_local():
+                continue
+            d = b.single_def(t.discr.place.local)
+            if d is None or d[1] == 'term' or d[2].rv.k != 'discr':
+                continue
+            src = d[2].rv.place
+            if src is None or not b.locals[src.local].startswith(OUTCOME):
+                continue
+            n_sw += 1
+            adt = prog.adts.get(OUTCOME) if hasattr(prog, 'adts') else None
+            variants = [v['name'] if isinstance(v, dict) else v for v in (adt or {}).get('variants', [])] if adt else []
+            sk_idx = variants.index('Skipped') if 'Skipped' in variants else 1
+            listed = {v: tg for v, tg in t.values}
+            sk_t = listed.get(sk_idx, t.otherwise)
+            reach = flow.reach_edges(b, [sk_t])
+            ok_exits = [e['bb'] for e in flow.exit_assignments(b) if e['cls'] == 'ok']
+            nexts = [bb for bb, ct in b.calls() if (ct.resolved or ct.callee or '').endswith('::next')]
+            bad = [x for x in ok_exits + nexts if x in reach]
+            ctx.ob('SAMEVERTS', q + '|skipped-is-error', cfg, not bad,
+                   'from the Skipped arm %s' % ('only failing exits are reachable' if not bad else
+                                                'the next vertex / an Ok exit is reachable (blocks %s): the rebuilt triangulation can silently lose a vertex' % bad[:4]),
+                   site='%s:%d' % (b.file, t.line))
+    ctx.floor('matches on InsertionOutcome in the heuristic rebuild', 1, n_sw, cfg)
 
 
 def _budget(ctx, cfg, prog, mod):
